@@ -29,6 +29,7 @@
   `extend_from_within_clone`, `BumpVec::map`, `into_flattened`, zero-sized element types.
 -/
 import BumpProof.Coll.Spec
+import BumpProof.Coll.Run
 import BumpProof.Lemmas.CollWF
 import BumpProof.Lemmas.CollRetain
 import BumpProof.Lemmas.CollDedup
@@ -39,6 +40,7 @@ import BumpProof.Lemmas.CollDrain
 import BumpProof.Lemmas.CollExtract
 import BumpProof.Lemmas.CollRev
 import BumpProof.Lemmas.CollRevPerm
+import BumpProof.Lemmas.CollZst
 
 namespace C06
 open Coll
@@ -146,6 +148,13 @@ theorem dedup_by_drops_once (bombs : List Id) (v : Vec) (o : List Outcome) (hv :
       rw [hx] at hl
       simp [dedupSpec] at *; omega
 
+/-- `dedup_by_key(key)`: two key calls per comparison, a panic in either is covered (the oracle is arbitrary) -/
+theorem dedup_by_key_drops_once (bombs : List Id) (v : Vec) (o : List Outcome) (hv : v.WF) :
+    DropsOnce (dedupByKey bombs v o) v [] := by
+  obtain ⟨r, hr, hwf, hp⟩ := dedup_by_drops_once bombs v (pairUp o) hv
+  obtain ⟨r', h1, h2, _⟩ := proj_ok (dedupByKey_pair bombs v o) hr
+  exact ⟨r', h1, by rw [h2]; exact hwf, by rw [h2]; exact hp⟩
+
 /-! ## `truncate`, `clear`, `pop`, `remove`, `swap_remove` -/
 
 theorem truncate_drops_once (bombs : List Id) (v : Vec) (n : Nat) (hv : v.WF) :
@@ -215,7 +224,7 @@ theorem insert_drops_once (env : Env) (v : Vec) (i : Nat) (id : Id) (hv : v.WF) 
     simp [this] at hlen; omega
 
 theorem extend_from_slice_clone_drops_once (env : Env) (v : Vec) (n : Nat) (o : List Outcome) (hv : v.WF)
-    (hfresh : (v.total ++ clonedIds n o).Nodup) :
+    (hfresh : (v.total ++ (if room env v n then clonedIds n o else [])).Nodup) :
     DropsOnce (extendFromSliceClone env v n o) v (if room env v n then clonedIds n o else []) := by
   have ⟨hs, hl⟩ := hv.slots_eq
   have ⟨g, hc⟩ := grown_grows (env := env) (n := n) hv
@@ -226,9 +235,28 @@ theorem extend_from_slice_clone_drops_once (env : Env) (v : Vec) (n : Nat) (o : 
     · have := hc hr; rw [hr] at hlen ⊢; simp at hlen; omega
     · have hr' : room env v n = false := by simpa using hr
       rw [hr'] at hlen ⊢; simp at hlen; omega
-  · split
-    · exact hfresh
-    · simpa using hv.2
+  · exact hfresh
+
+/-- `extend_from_within_clone(start..end)`: a bad range panics and changes nothing; otherwise the clones of
+    `self[start..end)` are appended one by one (a panicking `Clone` keeps those made so far) -/
+theorem extend_from_within_clone_drops_once (env : Env) (v : Vec) (start end_ : Nat) (o : List Outcome) (hv : v.WF)
+    (hfresh : (v.total ++ (if start ≤ end_ ∧ end_ ≤ v.len ∧ room env v (end_ - start) then clonedIds (end_ - start) o else [])).Nodup) :
+    DropsOnce (extendFromWithinClone env v start end_ o) v
+      (if start ≤ end_ ∧ end_ ≤ v.len ∧ room env v (end_ - start) then clonedIds (end_ - start) o else []) := by
+  have ⟨hs, hl⟩ := hv.slots_eq
+  by_cases hr : start ≤ end_ ∧ end_ ≤ v.len
+  · rw [extendFromWithinClone_eq env v v.abs start end_ o hs hl hr]
+    by_cases hroom : room env v (end_ - start) = true
+    · have := extend_from_slice_clone_drops_once env v (end_ - start) o hv (by simpa [hr, hroom] using hfresh)
+      simpa [hr, hroom] using this
+    · have h' : room env v (end_ - start) = false := by simpa using hroom
+      have := extend_from_slice_clone_drops_once env v (end_ - start) o hv (by simpa [h'] using hv.2)
+      simpa [hr, h'] using this
+  · rw [extendFromWithinClone_bad env v start end_ o (by omega)]
+    have hif : ¬ (start ≤ end_ ∧ end_ ≤ v.len ∧ room env v (end_ - start) = true) := by
+      intro h; exact hr ⟨h.1, h.2.1⟩
+    simp only [hif, ↓reduceIte]
+    exact ⟨_, rfl, hv, by simp⟩
 
 theorem resize_drops_once (env : Env) (v : Vec) (newLen : Nat) (value : Id) (o : List Outcome) (hv : v.WF)
     (hfresh : (v.total ++ resizeIns (room env v (newLen - v.len)) v.abs newLen value o).Nodup) :
@@ -251,7 +279,7 @@ theorem resize_drops_once (env : Env) (v : Vec) (newLen : Nat) (value : Id) (o :
     split at hlen <;> omega
 
 theorem resize_with_drops_once (env : Env) (v : Vec) (newLen : Nat) (o : List Outcome) (hv : v.WF)
-    (hfresh : (v.total ++ clonedIds (newLen - v.len) o).Nodup) :
+    (hfresh : (v.total ++ (if newLen > v.len ∧ room env v (newLen - v.len) then clonedIds (newLen - v.len) o else [])).Nodup) :
     DropsOnce (resizeWith env v newLen o) v
       (if newLen > v.len ∧ room env v (newLen - v.len) then clonedIds (newLen - v.len) o else []) := by
   have ⟨hs, hl⟩ := hv.slots_eq
@@ -267,7 +295,7 @@ theorem resize_with_drops_once (env : Env) (v : Vec) (newLen : Nat) (o : List Ou
     · have := hc hr
       simp only [h, hr, and_self, ↓reduceIte]
       rw [hr] at heq hlen
-      refine dropsOnce_grown hv g heq (by simpa using extendCloneSpecR_perm true v.abs (newLen - v.len) o) ?_ hfresh
+      refine dropsOnce_grown hv g heq (by simpa using extendCloneSpecR_perm true v.abs (newLen - v.len) o) ?_ (by simpa [h, hr] using hfresh)
       simp at hlen; omega
     · have hr' : room env v (newLen - v.len) = false := by simpa using hr
       simp only [hr', Bool.false_eq_true, and_false, ↓reduceIte]
@@ -498,6 +526,55 @@ theorem rev_into_iter_drops_once (bombs : List Id) (v : Vec) (script : List Pull
   exact rdropsOnce_of_eq hv (RGrows.refl_of_rwf hv) (rintoIter_eq bombs v v.rabs script hs hl)
     (by simpa using intoIterSpec_perm bombs v.rabs script) (by simp [intoIterSpec]) (by simpa using hv.2)
 
+theorem rev_pop_if_drops_once (v : Vec) (o : List Outcome) (hv : v.RWF) : RDropsOnce (rpopIf v o) v [] := by
+  have ⟨hs, hl⟩ := hv.slots_eq
+  have hcap := hv.len_le_cap
+  have hperm : ((rpopIfSpec v.rabs o).final ++ (rpopIfSpec v.rabs o).dropped ++ (rpopIfSpec v.rabs o).escaped).Perm v.rabs := by
+    unfold rpopIfSpec
+    cases v.rabs with
+    | nil => simp
+    | cons x rest =>
+      match o with
+      | [] => simp
+      | .panic :: o => simp
+      | .ret b :: o =>
+        simp only
+        split
+        · simpa using List.perm_append_singleton x rest
+        · simp
+  refine rdropsOnce_of_eq hv (RGrows.refl_of_rwf hv) (rpopIf_eq v v.rabs o hs hl) (by simpa using hperm) ?_ (by simpa using hv.2)
+  have h1 := hperm.length_eq; simp only [List.length_append] at h1; omega
+
+theorem rev_resize_with_drops_once (env : Env) (v : Vec) (newLen : Nat) (o : List Outcome) (hv : v.RWF)
+    (hfresh : (v.total ++ clonedIds (newLen - v.len) o).Nodup) :
+    RDropsOnce (rresizeWith env v newLen o) v
+      (if newLen > v.len ∧ rroom env v (newLen - v.len) then clonedIds (newLen - v.len) o else []) := by
+  have ⟨hs, hl⟩ := hv.slots_eq
+  have hcap := hv.len_le_cap
+  have heq := rresizeWith_eq env v v.rabs newLen o hs hl
+  by_cases h : newLen > v.len
+  · have h' : newLen > v.rabs.length := by omega
+    have ⟨g, hc⟩ := rgrown_grows (env := env) (n := newLen - v.len) hv
+    simp only [h, ↓reduceIte, rresizeWithSpec, h', hl] at heq
+    have hlen := rextendCloneSpecR_len (rroom env v (newLen - v.len)) v.rabs (newLen - v.len) o
+    have := g.cap
+    by_cases hr : rroom env v (newLen - v.len) = true
+    · have := hc hr
+      simp only [h, hr, and_self, ↓reduceIte]
+      rw [hr] at heq hlen
+      refine rdropsOnce_of_eq hv g heq (by simpa using rextendCloneSpecR_perm true v.rabs (newLen - v.len) o) ?_ hfresh
+      simp at hlen; omega
+    · have hr' : rroom env v (newLen - v.len) = false := by simpa using hr
+      simp only [hr', Bool.false_eq_true, and_false, ↓reduceIte]
+      rw [hr'] at heq hlen
+      refine rdropsOnce_of_eq hv g heq (by simpa using rextendCloneSpecR_perm false v.rabs (newLen - v.len) o) ?_ (by simpa using hv.2)
+      simp at hlen; omega
+  · have h' : ¬ newLen > v.rabs.length := by omega
+    simp only [h, false_and, ↓reduceIte, rresizeWithSpec, h'] at heq ⊢
+    refine rdropsOnce_of_eq hv (RGrows.refl_of_rwf hv) heq (by simpa using rtruncateSpec_perm env.bombs v.rabs newLen) ?_ (by simpa using hv.2)
+    have h1 := (rtruncateSpec_perm env.bombs v.rabs newLen).length_eq
+    simp only [List.length_append] at h1 ⊢; omega
+
 /-- `MutBumpVecRev::append(other)`: the elements of `other` move to the front of `self` (each still owned
     exactly once) or — reservation refused — `other` is dropped with all its elements; `other` is left empty -/
 theorem rev_append_drops_once (env : Env) (v other : Vec) (hv : v.RWF) (ho : other.WF)
@@ -524,6 +601,142 @@ theorem rev_append_drops_once (env : Env) (v other : Vec) (hv : v.RWF) (ho : oth
     have h2 := hw.2
     simp only [List.append_nil] at h2
     simpa [appendedOther] using List.Perm.append_right other.abs h2
+
+/-! ## histories (`Coll/Run.lean`): any finite sequence of modelled operations -/
+
+/-- one step of a history, whatever the operation, its arguments and the behaviour of its callbacks -/
+theorem step_drops_once (env : Env) (v : Vec) (op : Op) (hv : v.WF) (hfresh : (v.total ++ insOf env v op).Nodup) :
+    ∃ v', stepVec env v op = .ok v' ∧ v'.WF ∧ v'.total.Perm (v.total ++ insOf env v op) := by
+  have lift : ∀ {α : Type} {res : M (Out α)} {ins : List Id}, DropsOnce res v ins →
+      ∃ v', res.map (·.vec) = .ok v' ∧ v'.WF ∧ v'.total.Perm (v.total ++ ins) := by
+    intro α res ins h
+    obtain ⟨r, hr, hwf, hp⟩ := h
+    exact ⟨r.vec, by rw [hr]; rfl, hwf, hp⟩
+  cases op with
+  | retain o => exact lift (retain_drops_once env.bombs v o hv)
+  | dedupBy o => exact lift (dedup_by_drops_once env.bombs v o hv)
+  | dedupByKey o => exact lift (dedup_by_key_drops_once env.bombs v o hv)
+  | truncate n => exact lift (truncate_drops_once env.bombs v n hv)
+  | clear => exact lift (clear_drops_once env.bombs v hv)
+  | pop => exact lift (pop_drops_once v hv)
+  | popIf o => exact lift (pop_if_drops_once v o hv)
+  | remove i => exact lift (remove_drops_once v i hv)
+  | swapRemove i => exact lift (swap_remove_drops_once v i hv)
+  | push id => exact lift (push_drops_once env v id hv hfresh)
+  | insert i id => exact lift (insert_drops_once env v i id hv hfresh)
+  | extendClone n o => exact lift (extend_from_slice_clone_drops_once env v n o hv hfresh)
+  | extendWithin s e o => exact lift (extend_from_within_clone_drops_once env v s e o hv hfresh)
+  | resize n value o => exact lift (resize_drops_once env v n value o hv hfresh)
+  | resizeWith n o => exact lift (resize_with_drops_once env v n o hv hfresh)
+  | drain s e script fin => exact lift (drain_drops_once env.bombs v s e script fin hv)
+  | extractIf calls o => exact lift (extract_if_drops_once v calls o hv)
+  | mapInPlace o => exact lift (map_in_place_drops_once env.bombs v o hv hfresh)
+
+/-- HISTORY LEVEL: from a well-formed vector, EVERY finite sequence of modelled operations (any arguments,
+    any callback behaviour incl. panics, any panicking destructors), given only that the ids it brings in
+    are fresh, runs without a model fault (no read of a moved-out slot, no overwrite of a live value, no
+    out-of-bounds access), ends in a well-formed vector, and everything that ever entered is accounted for
+    exactly once: still stored, or dropped once, or handed to the caller -/
+theorem history_drops_once (env : Env) (ops : List Op) : ∀ (v : Vec), v.WF → (v.total ++ insRun env v ops).Nodup →
+    run env v ops = .ok (runD env v ops) ∧ (runD env v ops).WF ∧
+      (runD env v ops).total.Perm (v.total ++ insRun env v ops) := by
+  induction ops with
+  | nil => intro v hv _; simp [run, runD, insRun, hv]
+  | cons op ops ih =>
+    intro v hv hfresh
+    have hsub : (v.total ++ insOf env v op).Nodup := by
+      simp only [insRun] at hfresh
+      rw [← List.append_assoc] at hfresh
+      exact (List.nodup_append.mp hfresh).1
+    obtain ⟨v', hstep, hwf, hp⟩ := step_drops_once env v op hv hsub
+    have hD : stepD env v op = v' := by simp [stepD, hstep]
+    simp only [insRun, hstep, run, runD, hD] at hfresh ⊢
+    rw [← List.append_assoc] at hfresh
+    have hfresh' : (v'.total ++ insRun env v' ops).Nodup := by
+      have hperm : (v'.total ++ insRun env v' ops).Perm ((v.total ++ insOf env v op) ++ insRun env v' ops) :=
+        hp.append_right _
+      exact hperm.nodup_iff.mpr hfresh
+    obtain ⟨h1, h2, h3⟩ := ih v' hwf hfresh'
+    refine ⟨h1, h2, ?_⟩
+    rw [← List.append_assoc]
+    exact h3.trans (hp.append_right _)
+
+/-- no id is dropped twice along a history, and nothing dropped is still stored or was handed out -/
+theorem history_never_drops_twice (env : Env) (ops : List Op) (v : Vec) (hv : v.WF)
+    (hfresh : (v.total ++ insRun env v ops).Nodup) :
+    (runD env v ops).dropLog.Nodup ∧
+      ∀ id ∈ (runD env v ops).dropLog, id ∉ (runD env v ops).abs ∧ id ∉ (runD env v ops).escaped := by
+  have hw := (history_drops_once env ops v hv hfresh).2.1
+  generalize runD env v ops = w at hw
+  have h := hw.2
+  rw [hw.total_eq] at h
+  have ⟨h1, h2, h3⟩ := List.nodup_append.mp h
+  have ⟨h4, h5, h6⟩ := List.nodup_append.mp h1
+  refine ⟨h5, fun id hid => ⟨fun hc => ?_, fun hc => ?_⟩⟩
+  · exact h6 id hc id hid rfl
+  · exact h3 id (by simp [hid]) id hc rfl
+
+/-- non-vacuity: `[1,2,3]` in a full `BumpVec`, destructor of 2 panics: `push 4` (grows); `retain` keeps 1,
+    removes 2 (its destructor panics, the guard closes the gap); `drain(0..2)` yields 1 and drops 3;
+    `resize_with(4)` makes 7 and its closure panics at the second call.  Ends as `[4,7]`, 2 and 3 dropped
+    once, 1 handed out; the ids brought in are 4 and 7 -/
+example : run { bombs := [2], kind := .bump, capIn := 8 } (Vec.mk' [1, 2, 3] 0)
+      [.push 4, .retain [.ret 1, .ret 0, .panic], .drain 0 2 [.front] .drop, .resizeWith 4 [.ret 7, .panic]] =
+    .ok { slots := I [4, 7] ++ H 4, len := 2, dropLog := [2, 3], escaped := [1] } := by decide
+
+example : insRun { bombs := [2], kind := .bump, capIn := 8 } (Vec.mk' [1, 2, 3] 0)
+      [.push 4, .retain [.ret 1, .ret 0, .panic], .drain 0 2 [.front] .drop, .resizeWith 4 [.ret 7, .panic]] = [4, 7] := by
+  decide
+
+/-! ## zero-sized element types, by counts (`Coll/Zst.lean`)
+
+  Values without identity: "exactly once" is the count identity
+  `still owned + destructor calls + handed out` = the same before (`ZVec.total`). -/
+
+/-- `drain(start..end)` of a vector of zero-sized values, `k` pulls, then the `Drain` is dropped or
+    `keep_rest` is called — for EVERY position of a panicking `Drop` (also inside the `truncate` of
+    `Drain::drop`): every value is still owned, or its destructor ran exactly once, or it was handed out;
+    the vector keeps exactly the values outside the range (plus the un-yielded ones for `keep_rest`) -/
+theorem zst_drain_exactly_once (v : Zst.ZVec) (start end_ k : Nat) (keep : Bool) (bomb : Option Nat)
+    (hse : start ≤ end_) (hel : end_ ≤ v.len) :
+    ∃ v' p, Zst.drain v start end_ k keep bomb = some (v', p) ∧ v'.total = v.total ∧
+      v'.escaped = v.escaped + min k (end_ - start) ∧
+      v'.len = v.len - (end_ - start) + (if keep then end_ - start - k else 0) ∧
+      v'.drops = v.drops + (if keep then 0 else end_ - start - k) := by
+  obtain ⟨v', p, h1, h2, h3, h4⟩ := Zst.drain_spec v start end_ k keep bomb hse hel
+  refine ⟨v', p, h1, ?_, h2, h3, h4⟩
+  simp only [Zst.ZVec.total, h2, h3, h4]
+  cases keep <;> simp <;> omega
+
+/-- the defect the harness found (before commits b2f61d6 / 0480075): with the original `Drop` the taken
+    iterator was still alive and ran the destructors of the un-yielded values a second time —
+    `drop(v.drain(1..4))` on 5 values makes 6 destructor calls for 3 values -/
+example : Zst.drainOriginal { len := 5 } 1 4 0 none = some ({ len := 2, drops := 6 }, false) := by decide
+
+/-- … and the repaired code makes 3, also when the first destructor call panics -/
+example : Zst.drain { len := 5 } 1 4 0 false (some 0) = some ({ len := 2, drops := 3 }, true) := by decide
+
+/-- `into_iter()` of zero-sized values, `k` pulls, drop of the iterator: nothing stays owned, every value
+    was handed out or destructed once -/
+theorem zst_into_iter_exactly_once (v : Zst.ZVec) (k : Nat) (bomb : Option Nat) :
+    (Zst.intoIter v k bomb).1.len = 0 ∧ (Zst.intoIter v k bomb).1.total = v.total := by
+  unfold Zst.intoIter
+  have hp := Zst.pulls_spec k { v with len := 0 } { tailLen := 0, iterLen := v.len }
+  obtain ⟨h1, h2, h3, h4, h5⟩ := hp
+  simp only at h1 h2 h3 h4 h5
+  constructor <;> simp only [Zst.dropN, Zst.ZVec.total, h1, h2, h4, h5] <;> omega
+
+/-- `truncate` / dropping the owner of zero-sized values: one destructor call per value that goes away -/
+theorem zst_truncate_exactly_once (v : Zst.ZVec) (n : Nat) (bomb : Option Nat) :
+    (Zst.truncate v n bomb).1.total = v.total ∧ (Zst.truncate v n bomb).1.len = min n v.len := by
+  have ⟨t1, t2, t3⟩ := Zst.truncate_spec v n bomb
+  constructor
+  · simp only [Zst.ZVec.total, t1, t2, t3]; omega
+  · exact t1
+
+theorem zst_drop_owner (v : Zst.ZVec) (bomb : Option Nat) (u : Bool) :
+    (Zst.dropVec v bomb u).1.len = 0 ∧ (Zst.dropVec v bomb u).1.drops = v.drops + v.len := by
+  simp [Zst.dropVec, Zst.dropN]
 
 /-- non-vacuity (reverse vector): `[1,2,3]` at the end of a 5-slot buffer; `truncate(1)` with a panicking
     `Drop` of id 1 still drops 1 and 2 (front to back) and keeps 3 -/
